@@ -31,6 +31,13 @@ def plan(tier):
     p.append((S.T1(params={"test_timeout": 1}, D=(1.0, 9.0, 6.0)).variant("/timeout=10p,D<=9p"), 2 if q else 3, 2))
     p.append((S.T2(params={"test_timeout": 1}, D=(1.0, 9.0, 6.0)).variant("/timeout=10p,D<=9p"), 2, 2))
     p.append((S.G1(D=DL), 0 if q else 1, 3))
+    # legitimate retries that keep a test occupied for longer than one timeout but less than timeout x max_tries (each try within its timeout)
+    for mt, dur in [(m, d) for m in (2, 3, 4) for d in (4.0, 6.0, 8.0, 9.0)]:
+        p.append((S.T1(shared=S.VM1_CHAIN[:1], params={"test_timeout": 1, "max_tries": mt, "max_concurrent_tries": 1, "stop_status": "pass"},
+                       persistent=(r"\.customize\.", "FAIL"), D=(dur, 1.0)).variant(f"/timeout=10p,mt={mt},mct=1,customize FAILs {dur}p each"), 0 if q else 1, 0.3))
+        if (mt, dur) in ((3, 8.0), (2, 6.0)):
+            p.append((S.T2(shared=S.VM1_CHAIN[:2], params={"test_timeout": 1, "max_tries": mt, "max_concurrent_tries": 1},
+                           persistent=(r"\.on_customize\.", "FAIL"), D=(dur, 1.0)).variant(f"/timeout=10p,mt={mt},mct=1,on_customize FAILs {dur}p each"), 1, 0.5))
     # COMPLETE enumeration (no deviation bound): every duration / outcome / tie-order sequence of small graphs
     p.append((S.T1(shared=S.VM1_CHAIN[:2]).variant("/shared=install+customize,ALL-SCHEDULES"), 99, 0.5))
     p.append((S.T1("net1 net2 net3", shared=S.VM1_CHAIN[:2]).variant("/shared=install+customize,ALL-SCHEDULES"), 99, 0.5))
